@@ -29,6 +29,7 @@ def run(tier, seed):
             "documents": c.get("c07_documents", 0), "prefix_parses": c.get("c07_prefix_parses", 0),
             "escape_phase_documents": c.get("c07_escape_phase_documents", 0),
             "non_json_blank_parses": c.get("c07_blank_parses", 0),
+            "raw_control_in_string_parses": c.get("c07_raw_control_parses", 0),
             "lone_low_surrogate_documents_refused": c.get("c07_lone_low_surrogate_documents_refused", 0),
             "suffix_parses": c.get("c07_suffix_parses", 0), "bracket_parses": c.get("c07_bracket_parses", 0),
             "all_rejected": c.get("rejected", 0), "builds": [x.describe() for x in cfgs],
